@@ -32,13 +32,34 @@ def norm_ty(t):
     return re.sub(r"\s+", "", t or "")
 
 
+def split_top(s):
+    """split a type list at top-level commas"""
+    out, depth, cur = [], 0, ""
+    for ch in s:
+        if ch in "<([":
+            depth += 1
+        elif ch in ">)]":
+            depth -= 1
+        if ch == "," and depth == 0:
+            out.append(cur)
+            cur = ""
+        else:
+            cur += ch
+    if cur:
+        out.append(cur)
+    return out
+
+
 def canon_types(ts):
     """canonical component list: `Vec<X>` is a u32 count followed by X elements; an element written by a generic helper
     (its type is the helper's type parameter) matches any element type"""
     out = []
     for t in ts:
         m = re.match(r"^(?:std::vec::)?Vec<(.+)>$", t)
-        if m:
+        if t.startswith("(") and t.endswith(")") and len(split_top(t[1:-1])) > 1:
+            # a tuple is its components in order (the tuple impls write / read `.0` then `.1` ...; checked as their own pair)
+            out += canon_types([x.lstrip("&") for x in split_top(t[1:-1])])
+        elif m:
             out += ["u32", m.group(1) + "*"]
         elif out and out[-1] == "u32" and (re.match(r"^&?[A-Z][A-Za-z0-9]*$", t) or "::Item" in t):
             out.append("ANY*")
@@ -105,7 +126,7 @@ def run(ctx):
             continue
         if ty == "std::option::Option<T>":
             et = ["u8"] + et if any((c.method or "") == "push" for c in d["enc"].calls()) else et   # the tag byte is pushed directly
-        R.ob(et == dt or (short.split("<")[0] in ("String",) and same_components(et, dt)), "CODEC", d["dec"].where(), "CODEC|%s|component-types" % short,
+        R.ob(et == dt or same_components(et, dt), "CODEC", d["dec"].where(), "CODEC|%s|component-types" % short,
              "%s: components written %s but read %s" % (short, [x.split("::")[-1] for x in et], [x.split("::")[-1] for x in dt]),
              sample={"rule": "CODEC", "type": short, "components": len(et)})
         # --- offset chain
@@ -230,9 +251,16 @@ def _base_cases(R, F, pairs):
     # UintED: most significant limb first both ways
     for ty, d in pairs.items():
         if ty.split("<")[0].endswith("UintED"):
-            er = any((c.method or "") == "rev" for c in d["enc"].calls())
-            dr = any((c.method or "") in ("rev", "reverse") for c in d["dec"].calls()) or any(
-                mentions(origin(d["dec"], c.args[0]), "LIMBS") for c in d["dec"].calls() if (c.method or "") == "index_mut")
+            # ruint stores limbs least significant first; "most significant first" on the wire is therefore exactly one order
+            # reversal on each side: `.rev()` on the limb iterator, a count-down index, `reverse()` of the filled array, or an
+            # index counted from LIMBS
+            from panicrule import _countdown_index
+            e_marks = [c.method for c in d["enc"].calls() if (c.method or "") in ("rev", "reverse") and not d["enc"].is_cleanup(c.bb)]
+            e_marks += ["count-down index" for bi, b in enumerate(d["enc"].blocks) if not b.get("cleanup") and b["term"]["k"] == "assert"
+                        and b["term"].get("msg") == "BoundsCheck" and _countdown_index(d["enc"], bi, b["term"])]
+            d_marks = [c.method for c in d["dec"].calls() if (c.method or "") in ("rev", "reverse") and not d["dec"].is_cleanup(c.bb)]
+            d_marks += ["index from LIMBS" for c in d["dec"].calls() if (c.method or "") == "index_mut" and mentions(origin(d["dec"], c.args[0]), "LIMBS")]
+            er, dr = len(e_marks) == 1, len(d_marks) == 1
             R.ob(er and dr, "CODEC", d["enc"].where(), "CODEC|UintED|limb-order", "UintED limbs are not written most-significant first and reversed back on read (write rev=%s, read rev=%s)" % (er, dr),
                  sample={"rule": "CODEC base", "type": "UintED", "row": "limbs MSB first"})
     # BlockHistoryCacheData: u32 count, then (u64, Option<V>) in ascending BTreeMap order both sides
